@@ -1208,4 +1208,21 @@ theorem packets_priv (D : Nat) (term : Option Nat) (arrivals : List (Nat × Fram
   have hb' : b ∈ (runQ D term arrivals).out.pktsRev := by simpa [packets] using hb
   exact this.pkts b hb'
 
+/-! ## the comparator of the real sort -/
+
+theorem wrapS64_id (x : Int) (h0 : -(2 ^ 63) ≤ x) (h1 : x < 2 ^ 63) : CSem.wrapS 64 x = x := by
+  unfold CSem.wrapS
+  rw [BitVec.toInt_ofInt]
+  apply Int.bmod_eq_of_le <;> omega
+
+theorem wrapS32_id' (x : Int) (h0 : -(2 ^ 31) ≤ x) (h1 : x < 2 ^ 31) : CSem.wrapS 32 x = x := by
+  unfold CSem.wrapS
+  rw [BitVec.toInt_ofInt]
+  apply Int.bmod_eq_of_le <;> omega
+
+theorem ptsDescendC_eq (a b : Int) (h0 : -(2 ^ 31) ≤ b - a) (h1 : b - a < 2 ^ 31) : ptsDescendC a b = b - a := by
+  unfold ptsDescendC
+  show CSem.wrapS 32 (CSem.wrapS 64 (b - a)) = b - a
+  rw [wrapS64_id _ (by omega) (by omega), wrapS32_id' _ h0 h1]
+
 end Packetize
